@@ -998,6 +998,8 @@ class Emit:
         if op == 'store':
             p.accept('volatile'); p.accept('atomic')
             t, v = p.tval(); p.expect(','); pt, pv = p.tval()
+            if v[0] in ('cstruct', 'carr') or (v[0] in ('zeroinitializer', 'undef', 'poison') and isinstance(s.resolve(t), (TStruct, TArr))):
+                return '{ %s __t = %s; %s = __t; }' % (s.ctype(t), V(t, v), s.deref(V(pt, pv)))    # aggregate constant: via an initialised temporary
             return '%s = %s;' % (s.deref(V(pt, pv)), V(t, v))
         if op == 'getelementptr':
             p.accept('inbounds')
